@@ -61,6 +61,7 @@ def _getstr(base):
         selftest=[('__gmpn_get_str', r'n0 = \(n1 << -bit_pos\)', 'n0 = (n1 << (-bit_pos - 1))'), ('__gmpn_get_str', r'bits \+= bits_per_digit - cnt;', 'bits += bits_per_digit;')] if base in (8, 16) else [])
 for _b in (2, 4, 8, 16, 32, 64, 128, 256):
     UNITS.append(_getstr(_b))
+    if _b == 128: UNITS[-1]['tier'] = 'thorough'       # 450 s under load; the other seven bases stay in the quick tier
 
 # ------------------------------------------------------------------ mpn_set_str for power-of-two bases: the inverse relation - every digit lands in its k-bit field
 # digit m counted from the LEAST significant end (str[len-1-m]) is bits [mk, mk+k) of the result; bits at or above len*k are zero
@@ -143,5 +144,5 @@ def _zgetstr(zbase):
                   ('__gmpz_get_str', r'alloc_size \+= 1 \+ \(x_size<0\);', 'alloc_size += (x_size<0);')] if zbase in (16, -16) else [])
 for _zb in (2, 4, 8, 16, 32, -16, -2):
     UNITS.append(_zgetstr(_zb))
-    if _zb != 16: UNITS[-1]['tier'] = 'thorough'       # 5-15 minutes each; base 16 stays in the quick tier
+    UNITS[-1]['tier'] = 'thorough'       # 5-17 minutes each: vp check stopped C06's quick tier after 900 s with mpz_get_str_b16 in it, so all of them run in the thorough tier only
     UNITS[-1]['timeout'] = 2400
